@@ -98,8 +98,13 @@ func genScenario(r *hx.Rng, name string, thorough bool, search bool) scenario {
 		sc.lines = append(sc.lines, "cfg p008 0")
 	}
 	ntx := 2 + r.Intn(5)
+	useReq := r.Chance(1, 3) // transactions carry gate request ids: the header's "fixed" request id is checked by verifyBlock
 	for i := 0; i < ntx; i++ {
-		sc.lines = append(sc.lines, fmt.Sprintf("tx t%d", i))
+		if useReq && r.Chance(2, 3) {
+			sc.lines = append(sc.lines, fmt.Sprintf("tx t%d r%d", i, 1+r.Intn(9)))
+		} else {
+			sc.lines = append(sc.lines, fmt.Sprintf("tx t%d", i))
+		}
 	}
 	maxBlocks := 4 + r.Intn(6)
 	if thorough {
@@ -201,7 +206,27 @@ func genScenario(r *hx.Rng, name string, thorough bool, search bool) scenario {
 				}
 			}
 		}
-		if len(cands) > 0 && r.Chance(3, 4) {
+		// … or at a strictly HEAVIER fork (by one) over a target several blocks above the fork point, so that
+		// multi-block reorgs (and deaths inside their removals) are common
+		var heavier []int
+		for t := 1; t < len(nodes); t++ {
+			if isDesc(t, p) {
+				need := nodes[t].qnsum - par.qnsum + 1
+				if need >= 1 && need <= 3 {
+					heavier = append(heavier, t)
+				}
+			}
+		}
+		if len(heavier) > 0 && r.Chance(1, 3) {
+			t := heavier[r.Intn(len(heavier))]
+			for _, x := range heavier {
+				if nodes[x].depth > nodes[t].depth && r.Bool() {
+					t = x
+				}
+			}
+			qn = nodes[t].qnsum - par.qnsum + 1
+			eqTarget[i] = t
+		} else if len(cands) > 0 && r.Chance(3, 4) {
 			t := cands[r.Intn(len(cands))]
 			if r.Chance(1, 2) { // prefer a target well above the fork point
 				for _, x := range cands {
@@ -273,6 +298,8 @@ func genScenario(r *hx.Rng, name string, thorough bool, search bool) scenario {
 		flag := "ok"
 		if r.Chance(1, 25) {
 			flag = "badroot"
+		} else if useReq && r.Chance(1, 10) {
+			flag = "badreq"
 		}
 		n := nb{label: fmt.Sprintf("b%d", i), parent: p, height: h, qnsum: par.qnsum + qn, used: used, depth: par.depth + 1, pv: pv}
 		nodes = append(nodes, n)
@@ -366,7 +393,7 @@ func genScenario(r *hx.Rng, name string, thorough bool, search bool) scenario {
 		sc.lines = append(sc.lines, "par "+strings.Join(ls, ","))
 	}
 	// second pass: re-deliver everything (blocks rejected earlier may now win or be duplicates)
-	if r.Chance(1, 2) || shape == 6 {
+	if r.Chance(1, 4) || shape == 6 {
 		for _, b := range order {
 			if r.Chance(1, 2) {
 				emit(b)
@@ -688,6 +715,34 @@ func (c *child) guarded(armed bool, k, sub int, f func() string) (res string, to
 		res = "crash"
 	}
 	return
+}
+
+// shape of one delivery as seen in its write tokens: how many blocks a reorg removed, how many were inserted
+// (cascade of parked orphans), and — for a death — the class of the write it struck in front of
+func (c *child) shape(tokens []string, fired bool) {
+	rm, am := 0, 0
+	for _, t := range tokens {
+		if t == "rm" {
+			rm++
+		}
+		if t == "am" {
+			am++
+		}
+	}
+	if rm > 3 {
+		rm = 3
+	}
+	if am > 3 {
+		am = 3
+	}
+	c.faultStats[fmt.Sprintf("shape:removed=%d,inserted=%d", rm, am)]++
+	if fired {
+		last := "first-write"
+		if len(tokens) > 0 {
+			last = strings.SplitN(tokens[len(tokens)-1], ":", 2)[0]
+		}
+		c.faultStats["death-after:"+last]++
+	}
 }
 
 func wstr(tokens []string) string {
@@ -1114,6 +1169,9 @@ func (c *child) run(sc scenario) {
 			continue // nothing can run between death and restart
 		}
 		switch f[0] {
+		case "nomonitor":
+			// a tree that violates a ValidTree hypothesis on purpose (documented quirk): correspondence only
+			c.monitor = false
 		case "cfg":
 			if f[1] == "p008" && f[2] == "0" {
 				common.LocalChainConfig.Proposal008Block = 1 << 62
@@ -1158,6 +1216,10 @@ func (c *child) run(sc scenario) {
 		case "tx":
 			tx := &types.Transaction{Source: fundedA, Target: "0x42c8c9b13fc0573d18028b3398a887c4297ff646", Type: types.TransactionTypeOperatorEvent,
 				Time: "2024-04-22", Data: f[1], Nonce: uint64(len(c.txs) + 1), ChainId: "9500"}
+			if len(f) > 2 && strings.HasPrefix(f[2], "r") {
+				rq, _ := strconv.ParseUint(f[2][1:], 10, 64)
+				tx.RequestId = rq
+			}
 			tx.Hash = tx.GenHash()
 			c.txs[f[1]] = tx
 			c.txOrder = append(c.txOrder, f[1])
@@ -1189,6 +1251,16 @@ func (c *child) run(sc scenario) {
 			gate.mu.Lock()
 			gate.disabled = false
 			gate.mu.Unlock()
+			if bi.flag == "badreq" {
+				// header carries a request id the transactions do not justify
+				ids := map[string]uint64{}
+				for k, v := range blk.Header.RequestIds {
+					ids[k] = v
+				}
+				ids["fixed"] = ids["fixed"] + 1
+				blk.Header.RequestIds = ids
+				blk.Header.Hash = blk.Header.GenHash()
+			}
 			if bi.flag == "badroot" {
 				bi.goodRoot = blk.Header.StateTree
 				blk.Header.StateTree = common.BytesToHash(common.Sha256(blk.Header.StateTree.Bytes()))
@@ -1210,7 +1282,12 @@ func (c *child) run(sc scenario) {
 			if len(bi.txs) > 0 {
 				txl = strings.Join(bi.txs, ",")
 			}
-			c.emit(fmt.Sprintf("blk %s %s %s %d %d %d %s %s", f[1], hx.Hex(blk.Header.Hash.Bytes()), f[2], height, blk.Header.TotalQN, pv, txl, bi.flag), "ok")
+			var trq []string
+			for _, t := range blk.Transactions {
+				trq = append(trq, strconv.FormatUint(t.RequestId, 10))
+			}
+			c.emit(fmt.Sprintf("blk %s %s %s %d %d %d %s %s %d %s", f[1], hx.Hex(blk.Header.Hash.Bytes()), f[2], height, blk.Header.TotalQN, pv, txl, bi.flag,
+				blk.Header.RequestIds["fixed"], joinOrDash(trq)), "ok")
 		case "pool":
 			tx := *c.txs[f[1]]
 			res, _, _ := c.guarded(false, 0, 0, func() string {
@@ -1321,6 +1398,7 @@ func (c *child) run(sc scenario) {
 			if argAfter, err := types.MarshalBlockHeader(cp.Header); err != nil || !bytes.Equal(argBefore, argAfter) {
 				c.violation("argument-mutated", "add "+f[1]+": AddBlockOnChain changed the header of the block it was given")
 			}
+			c.shape(toks, fired)
 			if fired {
 				inState := 0
 				if sub > 0 && len(toks) > 0 && toks[len(toks)-1] == "st" {
@@ -1365,6 +1443,11 @@ func (c *child) run(sc scenario) {
 				return "ok"
 			})
 			if fired {
+				last := "first-write"
+				if len(toks) > 0 {
+					last = strings.SplitN(toks[len(toks)-1], ":", 2)[0]
+				}
+				c.faultStats["repair-death-after:"+last]++
 				c.emit(fmt.Sprintf("restartc %d 0", len(toks)), res+" "+wstr(toks))
 				c.dead = true
 				continue
@@ -1422,7 +1505,11 @@ func runChild(a map[string]string) {
 	if !setFaultGate(fgate.hook) && a["fault"] == "1" {
 		panic("fault mode needs a build with -tags c05fault against a repository with hook H2b-c05")
 	}
-	c.run(sc)
+	if a["pure"] == "1" {
+		c.runPure(hx.ArgInt(a, "n", 400))
+	} else {
+		c.run(sc)
+	}
 	out.Close()
 	cr := childResult{Viol: c.viol, Kinds: out.Kinds, Res: out.Results, N: out.N, Fault: c.faultStats}
 	j, _ := json.Marshal(cr)
@@ -1458,7 +1545,10 @@ func main() {
 			}
 		}
 	}
-	if mode == "fault" {
+	if mode == "pure" {
+		scs = []scenario{{name: "pure", lines: []string{}}}
+		a["purechild"] = "1"
+	} else if mode == "fault" {
 		a["faultchild"] = "1"
 		// deterministic family first: a fault in front of every write token of an extension, and of a reorg
 		for k := 0; k < 10; k++ {
@@ -1544,7 +1634,7 @@ func main() {
 				ioutil.WriteFile(scn, []byte(strings.Join(j.sc.lines, "\n")), 0644)
 				cctx, cancel := context.WithTimeout(context.Background(), 120*time.Second)
 				cmd := exec.CommandContext(cctx, self, "child=1", "scn="+scn, "name="+j.sc.name, "ops="+filepath.Join(d, "ops"), "obs="+filepath.Join(d, "obs"),
-					"result="+filepath.Join(d, "result"), "viol="+filepath.Join(d, "viol"), "fault="+a["faultchild"])
+					"result="+filepath.Join(d, "result"), "viol="+filepath.Join(d, "viol"), "fault="+a["faultchild"], "pure="+a["purechild"], "n="+a["n"])
 				cmd.Dir = d
 				cmd.Env = append(os.Environ(), "GOMAXPROCS=2")
 				outb, err := cmd.CombinedOutput()
@@ -1621,7 +1711,7 @@ func main() {
 	if len(viol) > 40 {
 		viol = viol[:40]
 	}
-	st := map[string]interface{}{"ops": total, "scenarios": len(scs), "kinds": kinds, "results": res, "violations": viol, "child_failures": nfail, "mode": mode, "fault_outcomes": faultStats}
+	st := map[string]interface{}{"ops": total, "scenarios": len(scs), "kinds": kinds, "results": res, "violations": viol, "child_failures": nfail, "mode": mode, "shapes_and_faults": faultStats}
 	j, _ := json.Marshal(st)
 	fmt.Println("STATS " + string(j))
 }
